@@ -845,6 +845,16 @@ def np_mean(x, axis=None):
     return to_tensor(x, fresh=False).mean(axis=axis)
 
 
+@model("numpy.std")
+def np_std(x, axis=None, ddof=0):
+    """population standard deviation (ddof = 0 only): sqrt(mean((x - mean(x))**2)), built from the modelled reductions"""
+    if axis is not None or ddof != 0:
+        raise Unsupported("numpy.std with axis / ddof")
+    xt = to_tensor(x, fresh=False)
+    d = xt - xt.mean()
+    return np_sqrt((d * d).mean())
+
+
 @model("numpy.maximum")
 def np_maximum(a, b):
     return Tensor.broadcast(a, b, S.smax)
